@@ -22,9 +22,12 @@
 //! types (dictionary / run-end encoding erased; Utf8 = LargeUtf8 = Utf8View; binary
 //! flavours equal; list flavours equal element-wise) as P's schema; (ii) results — equal
 //! to the result of P (`none`) under the query's ORDER BY / LIMIT comparison rule whenever
-//! both plans can be planned physically; when P itself cannot be planned (subqueries that
-//! only decorrelation makes executable, DISTINCT ON, ...) the reference is the `full`
-//! pipeline's result instead (counted).  (query, database) pairs the independent
+//! both plans can be executed; when P itself cannot be planned physically or fails while
+//! running (subqueries that only decorrelation makes executable, DISTINCT ON, `coalesce`
+//! that only simplification makes runnable, ...) the reference is the `full` pipeline's
+//! result instead (counted).  An optimized plan the physical planner rejects is "not
+//! executable" (not compared); one that is planned but fails while running is a violation
+//! only when P itself runs (then the applied rules broke it).  (query, database) pairs the independent
 //! reference interpreter calls ambiguous are not compared; where it says the statement may
 //! fail at run time an error on one side is tolerated.  An optimizer error on a valid
 //! analyzed plan is a violation ("yields a plan").
@@ -253,28 +256,30 @@ fn short(e: &str) -> String {
 #[derive(Debug, PartialEq)]
 enum Agreement {
     Same,
-    BothFailed,
     ToleratedError,
     /// one of the two plans cannot be planned physically: nothing demanded
     NotComparable,
 }
 
-/// Oracle (ii) for one (reference run, pipeline run).
-fn judge(reference: &Exec, got: &Exec, flags: &QueryFlags, class: Class) -> Result<Agreement, (&'static str, String)> {
-    match (reference, got) {
-        (_, Exec::Failed(e)) if e.starts_with("panic:") => Err(("panic", format!("panic while planning / executing the optimized plan: {}", short(e)))),
-        (Exec::NotExecutable(_), _) | (_, Exec::NotExecutable(_)) => Ok(Agreement::NotComparable),
-        (Exec::Rows(b), Exec::Rows(g)) => {
+/// Oracle (ii) for one (reference run, pipeline run).  The reference always delivered rows.
+/// `reference_is_p`: the reference is the unoptimized plan P itself, i.e. P needs no rule to run;
+/// then an optimized plan that the physical planner accepts but that fails while running was broken
+/// by the rules applied to it.  When P itself cannot run (it needs some rules: decorrelation,
+/// `coalesce` -> CASE simplification, ...) a partial pipeline's failure proves nothing.
+fn judge(reference: &QueryResult, got: &Exec, flags: &QueryFlags, class: Class, reference_is_p: bool) -> Result<Agreement, (&'static str, String)> {
+    match got {
+        Exec::NotExecutable(_) => Ok(Agreement::NotComparable),
+        Exec::Rows(g) => {
             let spec: OrderSpec = flags.into();
-            match compare_engine_results(&b.rows, &g.rows, &spec) {
+            match compare_engine_results(&reference.rows, &g.rows, &spec) {
                 Ok(()) => Ok(Agreement::Same),
                 Err(w) => Err(("rows", format!("reference plan vs optimized plan: {w}"))),
             }
         }
-        (Exec::Failed(_), Exec::Failed(_)) => Ok(Agreement::BothFailed),
-        _ if class == Class::MayFail => Ok(Agreement::ToleratedError),
-        (Exec::Rows(b), Exec::Failed(e)) => Err(("error", format!("reference plan returns {} but the optimized plan fails at run time: {}", show_rows(&b.rows), short(e)))),
-        (Exec::Failed(e), Exec::Rows(g)) => Err(("error", format!("reference plan fails at run time ({}) but the optimized plan returns {}", short(e), show_rows(&g.rows)))),
+        Exec::Failed(_) if class == Class::MayFail => Ok(Agreement::ToleratedError),
+        Exec::Failed(_) if !reference_is_p => Ok(Agreement::NotComparable),
+        Exec::Failed(e) if e.starts_with("panic:") => Err(("panic", format!("the unoptimized plan returns {} but planning / executing the optimized plan panics: {}", show_rows(&reference.rows), short(e)))),
+        Exec::Failed(e) => Err(("error", format!("the unoptimized plan returns {} but the optimized plan fails at run time: {}", show_rows(&reference.rows), short(e)))),
     }
 }
 
@@ -329,8 +334,8 @@ fn plan_query(w: &Worker, sql: &str, pipes: &[Pipeline]) -> Result<Planned, Stri
     Ok(Planned { analyzed, outs, plan_of, distinct, changed_in_full })
 }
 
-/// Which run is the reference on this database: P itself, or (when P cannot be planned
-/// physically) the `full` pipeline's plan.
+/// Which run is the reference on this database: P itself when it runs, else (P cannot be planned
+/// physically, or fails while running) the `full` pipeline's plan when that one runs.
 struct DbRuns {
     execs: Vec<Option<Exec>>,
     reference: Option<usize>,
@@ -342,7 +347,7 @@ fn run_on_db(w: &Worker, pl: &Planned, pipes: &[Pipeline]) -> DbRuns {
     execs[0] = Some(w.execute(&pl.distinct[0]));
     let mut reference = Some(0);
     let mut reference_is_full = false;
-    if matches!(execs[0], Some(Exec::NotExecutable(_))) {
+    if !matches!(execs[0], Some(Exec::Rows(_))) {
         let full = pipes.iter().position(|p| p.name == "full").and_then(|i| pl.plan_of[i]);
         reference = full;
         reference_is_full = true;
@@ -350,7 +355,7 @@ fn run_on_db(w: &Worker, pl: &Planned, pipes: &[Pipeline]) -> DbRuns {
             if execs[f].is_none() {
                 execs[f] = Some(w.execute(&pl.distinct[f]));
             }
-            if matches!(execs[f], Some(Exec::NotExecutable(_))) {
+            if !matches!(execs[f], Some(Exec::Rows(_))) {
                 reference = None;
             }
         }
@@ -405,9 +410,10 @@ fn run_case(c: &Case) -> Result<(), String> {
     let runs = run_on_db(&w, &pl, &pipes);
     let Some(r) = runs.reference else { return Ok(()) };
     let got = runs.execs[pl.plan_of[2].unwrap()].as_ref().unwrap();
-    match judge(runs.execs[r].as_ref().unwrap(), got, &c.flags, c.class) {
+    let Some(Exec::Rows(reference)) = runs.execs[r].as_ref() else { return Ok(()) };
+    match judge(reference, got, &c.flags, c.class, !runs.reference_is_full) {
         Ok(_) => Ok(()),
-        Err((_, what)) => Err(head(format!("{what} [reference = {}]", if runs.reference_is_full { "full default pipeline (P itself is not executable)" } else { "unoptimized plan P" }))),
+        Err((_, what)) => Err(head(format!("{what} [reference = {}]", if runs.reference_is_full { "full default pipeline (P itself cannot be executed)" } else { "unoptimized plan P" }))),
     }
 }
 
@@ -569,16 +575,16 @@ fn explore(ctx: &Ctx) {
             let executed = runs.execs.iter().filter(|e| e.is_some()).count() as u64;
             ctx.evals(executed);
             let Some(r) = runs.reference else {
-                ctx.count("pairs_without_executable_reference", 1);
+                ctx.count("pairs_without_executable_reference(neither_P_nor_full_pipeline_runs)", 1);
                 continue;
             };
             if runs.reference_is_full {
-                ctx.count("pairs_compared_against_full_pipeline(P_not_executable)", 1);
+                ctx.count(if matches!(runs.execs[0], Some(Exec::NotExecutable(_))) { "pairs_compared_against_full_pipeline(P_not_plannable_physically)" } else { "pairs_compared_against_full_pipeline(P_fails_at_run_time)" }, 1);
             } else {
                 ctx.count("pairs_compared_against_unoptimized_plan", 1);
             }
-            let reference = runs.execs[r].as_ref().unwrap();
-            let ref_nonempty = matches!(reference, Exec::Rows(x) if !x.rows.is_empty());
+            let Some(Exec::Rows(reference)) = runs.execs[r].as_ref() else { continue };
+            let ref_nonempty = !reference.rows.is_empty();
             for (pi, p) in pipes.iter().enumerate() {
                 let Some(idx) = pl.plan_of[pi] else { continue };
                 if idx == r {
@@ -587,7 +593,7 @@ fn explore(ctx: &Ctx) {
                 let got = runs.execs[idx].as_ref().unwrap();
                 let mut ks = kind_stats.lock().unwrap();
                 let ke = ks.entry(kind_of(&p.name)).or_insert([0; 4]);
-                match judge(reference, got, &q.flags, class) {
+                match judge(reference, got, &q.flags, class, !runs.reference_is_full) {
                     Ok(Agreement::NotComparable) => ke[2] += 1,
                     Ok(a) => {
                         ke[1] += 1;
